@@ -597,8 +597,312 @@ pub fn target_chain_programs(out: &mut Vec<(String, Program)>) {
     }
 }
 
+/// counts, magnitudes and lengths beyond what the other families reach: one shape per program, parametrised by N
+/// over a ladder that brackets the usual thresholds (8/9, 16/17, 32/33, 64/65, 128/129, 256/257). Every item carries
+/// a different value and enters a position-weighted sum, so an item that is dropped, repeated or swapped changes
+/// what is printed.
+const CALL_HEAVY_MAX: usize = 90;
+
+pub fn scale_programs(thorough: bool, out: &mut Vec<(String, Program)>) {
+    let ladder: Vec<usize> = if thorough {
+        vec![1, 2, 3, 4, 5, 6, 7, 8, 9, 10, 11, 12, 13, 15, 16, 17, 18, 20, 24, 31, 32, 33, 40, 50, 63, 64, 65, 66, 80, 90, 100, 127, 128, 129, 130, 150, 199, 200, 201, 255, 256, 257, 300]
+    } else {
+        vec![1, 2, 5, 8, 9, 16, 17, 32, 33, 64, 65, 80, 100, 128, 129, 256, 257]
+    };
+    let val = |i: usize| -> i64 { (i * i + 3 * i + 1) as i64 };
+    let w = |i: usize| -> Expr { int(i as i64 + 1) };
+    // `acc += (i + 1) * e_i` for every i
+    let weighted = |items: Vec<Expr>| -> Vec<Stmt> {
+        let mut b = vec![def("acc", int(0))];
+        for (i, e) in items.into_iter().enumerate() {
+            b.push(op_assign("acc", BinOp::Add, mul(w(i), e)));
+        }
+        b
+    };
+    let mut push = |out: &mut Vec<(String, Program)>, shape: &str, n: usize, mut tops: Vec<Top>, body: Vec<Stmt>| {
+        let mut all = vec![ext_print()];
+        all.append(&mut tops);
+        all.push(start_fn(body));
+        out.push((format!("scale:{}:n{}", shape, n), Program { tops: all }));
+    };
+    for &n in &ladder {
+        // ---- parameters. Shapes that spend Lua locals stop at 65 items, wide literals at 150: beyond that the emitted
+        // function exceeds Lua's 200 locals (known finding F-06d) and a long elif / case chain its 200 nesting levels
+        if n <= 65 {
+            let names: Vec<String> = (0..n).map(|i| format!("p{}", i)).collect();
+            let params: Vec<(&str, Option<Ty>)> = names.iter().map(|x| (x.as_str(), Some(Ty::Int))).collect();
+            let mut fb = weighted(names.iter().map(|x| var(x)).collect());
+            fb.push(Stmt::Expr(var("acc")));
+            let f = top_fn("f", params, RetAnn::Ty(Ty::Int), fb);
+            push(out, "parameters", n, vec![f], vec![print_of(callv("f", (0..n).map(|i| int(val(i))).collect())), print_of(callv("f", (0..n).map(|i| int(val(n - 1 - i))).collect()))]);
+        }
+        // ---- blob fields: literal, reads, assignments to the first / last / middle field
+        if n <= 150 {
+            let fields: Vec<(String, Ty)> = (0..n).map(|i| (format!("f{}", i), Ty::Int)).collect();
+            let lit = Expr::Blob("Big".into(), (0..n).map(|i| (format!("f{}", i), int(val(i)))).collect());
+            let mut body = vec![def("b", lit)];
+            body.extend(weighted((0..n).map(|i| pa("b", &format!("f{}", i))).collect()));
+            body.push(print_of(var("acc")));
+            for k in [0, n / 2, n - 1] {
+                body.push(fa("b", &format!("f{}", k), None, int(7 + k as i64)));
+            }
+            body.push(print_of(add(add(pa("b", "f0"), pa("b", &format!("f{}", n / 2))), pa("b", &format!("f{}", n - 1)))));
+            push(out, "blob-fields", n, vec![Top::Blob { name: "Big".into(), fields }], body);
+        }
+        // ---- tuple elements
+        if n <= 150 {
+            let mut body = vec![def("t", Expr::Tuple((0..n).map(|i| int(val(i))).collect()))];
+            body.extend(weighted((0..n).map(|i| Expr::Index(Box::new(var("t")), i as i64)).collect()));
+            body.push(print_of(var("acc")));
+            body.push(print_of(bin(BinOp::Eq, var("t"), Expr::Tuple((0..n).map(|i| int(val(i))).collect()))));
+            push(out, "tuple-elements", n, vec![], body);
+        }
+        // ---- list elements (printed, compared)
+        {
+            let l = |delta: i64| Expr::List((0..n).map(|i| int(val(i) + if i + 1 == n { delta } else { 0 })).collect());
+            let body = vec![def("l", l(0)), print_of(var("l")), print_of(bin(BinOp::Eq, var("l"), l(0))), print_of(bin(BinOp::Eq, var("l"), l(1)))];
+            push(out, "list-elements", n, vec![], body);
+        }
+        // ---- locals of one function, the first and the last captured by a closure
+        if n <= 80 {
+            let mut body: Vec<Stmt> = (0..n).map(|i| def(&format!("x{}", i), int(val(i)))).collect();
+            body.push(cdef("peek", lam(vec![], RetAnn::Ty(Ty::Int), vec![Stmt::Expr(add(var("x0"), var(&format!("x{}", n - 1))))])));
+            // a value held across a call that changes the variable it was read from, with all those locals alive
+            body.push(cdef("bump", lam(vec![], RetAnn::Ty(Ty::Int), vec![assign("x0", int(1000)), Stmt::Expr(int(1))])));
+            body.push(print_of(add(var("x0"), callv("bump", vec![]))));
+            body.push(print_of(Expr::Tuple(vec![var("x0"), callv("bump", vec![]), var("x0")])));
+            body.push(assign("x0", int(val(0))));
+            body.extend(weighted((0..n).map(|i| var(&format!("x{}", i))).collect()));
+            body.push(print_of(var("acc")));
+            body.push(assign(&format!("x{}", n - 1), int(5)));
+            body.push(print_of(callv("peek", vec![])));
+            push(out, "locals", n, vec![], body);
+        }
+        // ---- enum variants, a case that lists all of them
+        if n <= 150 {
+            let variants: Vec<(String, Option<Ty>)> = (0..n).map(|i| (format!("V{}", i), if i % 2 == 0 { Some(Ty::Int) } else { None })).collect();
+            let arms: Vec<CaseArm> = (0..n)
+                .map(|i| CaseArm { variant: format!("V{}", i), bind: if i % 2 == 0 { Some("q".into()) } else { None }, body: vec![Stmt::Expr(if i % 2 == 0 { add(var("q"), int(1000 * i as i64)) } else { int(1000 * i as i64 + 1) })] })
+                .collect();
+            let which = top_fn("which", vec![("e", Some(Ty::User("Wide".into())))], RetAnn::Ty(Ty::Int), vec![Stmt::Expr(Expr::Case(Box::new(var("e")), arms, None))]);
+            let mk = |i: usize| Expr::Variant("Wide".into(), format!("V{}", i), if i % 2 == 0 { Some(Box::new(int(val(i)))) } else { None });
+            let mut picks = vec![0, n / 2, n.saturating_sub(2), n - 1];
+            picks.dedup();
+            let mut body: Vec<Stmt> = picks.iter().map(|i| print_of(callv("which", vec![mk(*i)]))).collect();
+            body.push(print_of(bin(BinOp::Eq, mk(n - 1), mk(n - 1))));
+            body.push(print_of(bin(BinOp::Eq, mk(0), mk(n - 1))));
+            push(out, "enum-variants", n, vec![Top::Enum { name: "Wide".into(), variants }, which], body);
+        }
+        // ---- an elif chain
+        if n <= 150 {
+            let branches: Vec<(Expr, Vec<Stmt>)> = (0..n).map(|i| (bin(BinOp::Eq, var("k"), int(i as i64)), vec![Stmt::Expr(int(val(i)))])).collect();
+            let sel = top_fn("sel", vec![("k", Some(Ty::Int))], RetAnn::Ty(Ty::Int), vec![Stmt::Expr(Expr::If(branches, Some(vec![Stmt::Expr(int(-1))])))]);
+            let body = [0usize, n / 2, n - 1, n].iter().map(|k| print_of(callv("sel", vec![int(*k as i64)]))).collect();
+            push(out, "elif-chain", n, vec![sel], body);
+        }
+        // ---- the same closure called N times, two instances
+        if n <= 65 {
+            let mkc = top_fn(
+                "counter",
+                vec![("step", Some(Ty::Int))],
+                RetAnn::Ty(Ty::Fn(vec![], Box::new(Ty::Int))),
+                vec![def("c", int(0)), Stmt::Expr(lam(vec![], RetAnn::Ty(Ty::Int), vec![op_assign("c", BinOp::Add, var("step")), Stmt::Expr(var("c"))]))],
+            );
+            let mut body = vec![cdef("a", callv("counter", vec![int(1)])), cdef("b", callv("counter", vec![int(100)])), def("acc", int(0))];
+            for i in 0..n {
+                body.push(op_assign("acc", BinOp::Add, mul(w(i), callv(if i % 3 == 2 { "b" } else { "a" }, vec![]))));
+            }
+            body.push(print_of(var("acc")));
+            body.push(print_of(callv("a", vec![])));
+            body.push(print_of(callv("b", vec![])));
+            push(out, "repeated-calls-of-one-closure", n, vec![mkc], body);
+        }
+        // ---- nesting: blocks, ifs, closures, parentheses
+        if n <= 100 {
+            let mut inner = vec![print_of(add(var("x"), int(n as i64)))];
+            for i in (0..n).rev() {
+                inner = match i % 3 {
+                    0 => vec![Stmt::Block(inner)],
+                    1 => vec![if_s(bin(BinOp::Gt, var("x"), int(-1)), inner)],
+                    _ => vec![Stmt::Loop(Some(bin(BinOp::Lt, var(&format!("i{}", i)), int(1))), { let mut b = vec![op_assign(&format!("i{}", i), BinOp::Add, int(1))]; b.extend(inner); b })],
+                };
+                if i % 3 == 2 {
+                    inner.insert(0, def(&format!("i{}", i), int(0)));
+                }
+            }
+            let mut body = vec![def("x", int(3))];
+            body.extend(inner);
+            push(out, "nested-statements", n, vec![], body);
+            let mut e = add(var("x"), int(1));
+            for i in 0..n {
+                e = if i % 2 == 0 { Expr::Paren(Box::new(mul(e, int(1)))) } else { Expr::Paren(Box::new(add(int(i as i64 % 5), e))) };
+            }
+            push(out, "nested-parentheses", n, vec![], vec![def("x", int(3)), print_of(e)]);
+            let mut f = lam(vec![], RetAnn::Ty(Ty::Int), vec![Stmt::Expr(add(var("x"), int(n as i64)))]);
+            for i in 0..n.min(40) {
+                f = lam(vec![], RetAnn::Ty(Ty::Int), vec![cdef(&format!("g{}", i), f), Stmt::Expr(add(callv(&format!("g{}", i), vec![]), int(1)))]);
+            }
+            push(out, "nested-closures", n.min(40), vec![], vec![def("x", int(3)), cdef("outer", f), print_of(callv("outer", vec![]))]);
+        }
+        // ---- one expression with N operands: sums, products of small factors, and / or chains, string concatenation
+        if n <= 65 {
+            let mut e = int(val(0));
+            let mut conj = bin(BinOp::Lt, var("x"), int(1000));
+            let mut disj = bin(BinOp::Eq, var("x"), int(-1));
+            let mut cat = s("s0");
+            for i in 1..n {
+                e = if i % 4 == 3 { bin(BinOp::Sub, e, mul(var("x"), int(i as i64))) } else { add(e, int(val(i))) };
+                conj = bin(BinOp::And, conj, bin(BinOp::Lt, var("x"), int(1000 + i as i64)));
+                disj = bin(BinOp::Or, disj, bin(BinOp::Eq, var("x"), int(if i + 1 == n { 3 } else { -1 - i as i64 })));
+                cat = add(cat, s(&format!("s{}", i)));
+            }
+            push(out, "operands-of-one-expression", n, vec![], vec![def("x", int(3)), print_of(e), print_of(conj), print_of(disj), print_of(cat)]);
+        }
+        // ---- global functions and global constants that build on each other (two chunk-level locals each at most)
+        if n <= 80 {
+            let mut tops: Vec<Top> = Vec::new();
+            for i in 0..n {
+                tops.push(Top::Def { name: format!("k{}", i), mutable: false, ty: None, value: if i == 0 { int(1) } else { add(var(&format!("k{}", i - 1)), int(i as i64)) } });
+            }
+            push(out, "chained-global-constants", n, tops, vec![print_of(var(&format!("k{}", n - 1))), print_of(var("k0"))]);
+        }
+        // ---- closures over one variable
+        if n <= 65 {
+            let mut body = vec![def("v", int(0))];
+            for i in 0..n {
+                body.push(cdef(&format!("c{}", i), lam(vec![], RetAnn::Void, vec![op_assign("v", BinOp::Add, int(val(i)))])));
+            }
+            for i in 0..n {
+                body.push(Stmt::Expr(callv(&format!("c{}", i), vec![])));
+            }
+            body.push(print_of(var("v")));
+            push(out, "closures-over-one-variable", n, vec![], body);
+        }
+        // ---- a chain of N index / field accesses on a parameter without annotation (deferred constraints)
+        if n <= 65 {
+            let mut acc_e = var("a");
+            let mut nested = int(5);
+            for _ in 0..n {
+                acc_e = Expr::Index(Box::new(acc_e), 0);
+                nested = Expr::Tuple(vec![nested, int(2)]);
+            }
+            let deep = top_fn("deep", vec![("a", None)], RetAnn::Implied, vec![Stmt::Expr(add(acc_e, int(1)))]);
+            push(out, "index-chain-on-untyped-parameter", n, vec![deep], vec![print_of(callv("deep", vec![nested]))]);
+            let mut tops: Vec<Top> = Vec::new();
+            for i in 0..n {
+                tops.push(Top::Blob { name: format!("B{}", i), fields: vec![("inner".to_string(), if i + 1 == n { Ty::Int } else { Ty::User(format!("B{}", i + 1)) })] });
+            }
+            let mut acc_f = var("b");
+            let mut lit = int(5);
+            for i in (0..n).rev() {
+                lit = Expr::Blob(format!("B{}", i), vec![("inner".into(), lit)]);
+            }
+            for _ in 0..n {
+                acc_f = field(acc_f, "inner");
+            }
+            tops.push(top_fn("deepf", vec![("b", None)], RetAnn::Implied, vec![Stmt::Expr(add(acc_f, int(1)))]));
+            push(out, "field-chain-on-untyped-parameter", n, tops, vec![print_of(callv("deepf", vec![lit]))]);
+        }
+        // ---- two variables of different types, each used in N operators, then used once more
+        if n <= 40 {
+            let mut body = vec![def("x", int(3)), def("sv", s("s")), def("acc", int(0)), def("cat", s(""))];
+            for i in 0..n {
+                body.push(op_assign("acc", BinOp::Add, mul(var("x"), int(i as i64 + 1))));
+                body.push(assign("cat", add(var("cat"), add(var("sv"), s(&format!("{}", i))))));
+            }
+            body.push(print_of(var("acc")));
+            body.push(print_of(var("cat")));
+            body.push(print_of(add(var("sv"), s("!"))));
+            body.push(print_of(mul(var("x"), int(2))));
+            push(out, "operator-uses-of-two-variables", n, vec![], body);
+        }
+        // ---- statements: a long straight-line body with a value live from the first statement to the last
+        {
+            let mut body = vec![def("first", int(41)), def("acc", int(0))];
+            for i in 0..n {
+                body.push(op_assign("acc", BinOp::Add, mul(w(i), int(val(i)))));
+            }
+            body.push(print_of(add(var("acc"), var("first"))));
+            push(out, "statements", n, vec![], body);
+        }
+    }
+    // ---- functions whose number of live Lua locals approaches Lua's limit of 200 (every call result is one): a value
+    // held across a call that changes the variable it was read from, after N call statements. Dense in N because the
+    // interesting region (an emitter running short of locals) is narrow; the cap is where the unchanged emitter
+    // stops producing loadable code (known finding F-06d)
+    for n in (if thorough { (30..=CALL_HEAVY_MAX).collect::<Vec<usize>>() } else { (30..=CALL_HEAVY_MAX).step_by(4).collect() }) {
+        let idf = top_fn("idf", vec![("q", Some(Ty::Int))], RetAnn::Ty(Ty::Int), vec![Stmt::Expr(var("q"))]);
+        let mut body = vec![def("seen", int(5)), cdef("note", lam(vec![], RetAnn::Ty(Ty::Int), vec![op_assign("seen", BinOp::Add, int(100)), Stmt::Expr(int(1))])), def("acc", int(0))];
+        for i in 0..n {
+            body.push(op_assign("acc", BinOp::Add, callv("idf", vec![int(val(i))])));
+        }
+        body.push(print_of(var("acc")));
+        body.push(print_of(add(var("seen"), callv("note", vec![]))));
+        body.push(print_of(Expr::Tuple(vec![var("seen"), callv("note", vec![]), var("seen")])));
+        body.push(print_of(var("seen")));
+        push(out, "call-heavy-function", n, vec![idf], body);
+    }
+    // ---- magnitudes: integer and float literals, printed, doubled, halved, compared with their neighbours
+    let ints: Vec<i64> = vec![
+        255, 256, 65535, 65536, 2147483647, 2147483648, 2147483649, 4294967295, 4294967296, 4294967297, 9007199254740991, 9007199254740992, 9007199254740993, 4611686018427387904, 9223372036854775806, 9223372036854775807, 1000000000000000000, 999999999999999,
+        1000000000000000, 99999999999999, 94906265, 94906266, 94906267, 3037000499, 3037000500, 2097151, 2097152, 2097153, 46340, 46341, 65537,
+    ];
+    for (k, v) in ints.iter().enumerate() {
+        let mut body = vec![def("x", int(*v)), print_of(var("x")), print_of(add(var("x"), int(1))), print_of(bin(BinOp::Sub, var("x"), int(1))), print_of(mul(var("x"), int(2))), print_of(bin(BinOp::Div, var("x"), int(2)))];
+        body.push(print_of(bin(BinOp::Lt, var("x"), add(var("x"), int(1)))));
+        body.push(print_of(bin(BinOp::Eq, var("x"), int(*v))));
+        body.push(print_of(bin(BinOp::Eq, bin(BinOp::Sub, var("x"), int(1)), int(*v))));
+        body.push(print_of(un(UnOp::Neg, var("x"))));
+        body.push(print_of(Expr::Tuple(vec![var("x"), un(UnOp::Neg, int(*v))])));
+        body.push(print_of(bin(BinOp::Lt, var("x"), Expr::Float(*v as f64 * 1.5))));
+        // between literals (what a constant folder would see)
+        body.push(print_of(add(int(*v), int(1))));
+        body.push(print_of(bin(BinOp::Sub, int(*v), int(1))));
+        body.push(print_of(mul(int(*v), int(3))));
+        body.push(print_of(mul(int(*v), int(*v))));
+        body.push(print_of(add(int(*v), int(*v))));
+        body.push(print_of(bin(BinOp::Sub, un(UnOp::Neg, int(*v)), int(2))));
+        push(out, "integer-magnitude", k, vec![], body);
+    }
+    let floats: Vec<f64> = vec![
+        0.1, 0.2, 0.3, 1.5e15, 1e15, 1e16, 123456789012345.0, 1234567890123456.0, 9007199254740992.0, 9007199254740993.0, 1e-5, 1.5e-7, 1e100, 1.7976931348623157e308, 5e-324, 0.000001, 100000.0, 1e21, 1e22, 3.0, 2147483648.0, 4294967296.5, 0.30000000000000004, 1.0000000000000002,
+    ];
+    for (k, v) in floats.iter().enumerate() {
+        let body = vec![
+            def("y", Expr::Float(*v)),
+            print_of(var("y")),
+            print_of(add(var("y"), Expr::Float(0.5))),
+            print_of(mul(var("y"), Expr::Float(2.0))),
+            print_of(bin(BinOp::Div, var("y"), int(4))),
+            print_of(bin(BinOp::Eq, var("y"), Expr::Float(*v))),
+            print_of(bin(BinOp::Lt, var("y"), mul(Expr::Float(*v), Expr::Float(1.5)))),
+            print_of(bin(BinOp::Gt, var("y"), int(2))),
+            print_of(Expr::Tuple(vec![var("y"), un(UnOp::Neg, Expr::Float(*v))])),
+        ];
+        push(out, "float-magnitude", k, vec![], body);
+    }
+    // ---- long strings and long identifiers
+    for &n in &[31usize, 32, 33, 63, 64, 65, 127, 128, 129, 255, 256, 257, 1000, 4095, 4096, 4097, 65535, 65536, 65537, 100000] {
+        let text: String = (0..n).map(|i| (b'a' + ((i * 7 + i / 26) % 26) as u8) as char).collect();
+        let mut other = text.clone();
+        other.pop();
+        other.push('#');
+        let body = vec![def("t", s(&text)), print_of(bin(BinOp::Eq, var("t"), s(&text))), print_of(bin(BinOp::Eq, var("t"), s(&other))), print_of(bin(BinOp::Lt, var("t"), s(&other))), print_of(bin(BinOp::Eq, add(var("t"), s("!")), add(s(&text), s("!")))), print_of(var("t"))];
+        push(out, "string-length", n, vec![], body);
+        if n <= 4097 {
+            let stem: String = (0..n - 1).map(|i| (b'a' + ((i * 5) % 26) as u8) as char).collect();
+            let (a, b) = (format!("{}a", stem), format!("{}b", stem));
+            let getter = top_fn(&a, vec![], RetAnn::Ty(Ty::Int), vec![Stmt::Expr(int(11))]);
+            let body = vec![def(&b, int(22)), print_of(add(callv(&a, vec![]), var(&b))), assign(&b, int(33)), print_of(var(&b)), print_of(callv(&a, vec![]))];
+            push(out, "identifier-length", n, vec![getter], body);
+        }
+    }
+}
+
 pub fn all_programs(thorough: bool) -> Vec<(String, Program)> {
-    all_programs_len(if thorough { 4 } else { 3 })
+    let mut out = all_programs_len(if thorough { 4 } else { 3 });
+    scale_programs(thorough, &mut out);
+    out
 }
 
 /// string literals: every content of length <= 2 over an alphabet with escapes-to-be, control
